@@ -459,6 +459,51 @@ fn ordering_litmus(rounds: u64) {
     if n > 0 {
         v("atomic-ordering/SeqCst-store-then-load-both-threads-saw-0", jobj! {"rounds" => rounds, "forbidden_outcomes" => n, "first_round" => first});
     }
+    // CONTROL (harness-side, no library code): the same litmus with Release stores / Acquire
+    // loads on two plain atomics. It shows how often THIS machine, under THIS load, exhibits the
+    // forbidden outcome when the ordering is weakened - the litmus above is only informative if
+    // this number is not zero.
+    {
+        static X: std::sync::atomic::AtomicU32 = std::sync::atomic::AtomicU32::new(0);
+        static PAD: [std::sync::atomic::AtomicU64; 16] = [const { A64::new(0) }; 16];
+        static Y: std::sync::atomic::AtomicU32 = std::sync::atomic::AtomicU32::new(0);
+        let _ = &PAD;
+        let crounds = (rounds / 3).max(1);
+        let phase = std::sync::Arc::new(A64::new(0));
+        let r2 = std::sync::Arc::new(A64::new(9));
+        let (p2, rr2) = (phase.clone(), r2.clone());
+        let h = std::thread::spawn(move || {
+            for r in 1..=crounds {
+                while p2.load(O::Acquire) != 2 * r - 1 {
+                    std::hint::spin_loop();
+                }
+                Y.store(1, O::Release);
+                let v = X.load(O::Acquire);
+                rr2.store(v as u64, O::Release);
+                p2.store(2 * r, O::Release);
+            }
+        });
+        let mut seen = 0u64;
+        for r in 1..=crounds {
+            X.store(0, O::SeqCst);
+            Y.store(0, O::SeqCst);
+            phase.store(2 * r - 1, O::Release);
+            X.store(1, O::Release);
+            let r1 = Y.load(O::Acquire);
+            while phase.load(O::Acquire) != 2 * r {
+                std::hint::spin_loop();
+            }
+            if r1 == 0 && r2.load(O::Acquire) == 0 {
+                seen += 1;
+            }
+        }
+        let _ = h.join();
+        out::count("ordering_litmus_control_rounds", crounds as i128);
+        out::count("ordering_litmus_control_forbidden_outcomes", seen as i128);
+        if seen == 0 {
+            out::note("ordering-litmus-control-saw-no-reordering", jobj! {"control_rounds" => crounds, "meaning" => "the weakened control never showed the forbidden outcome in this run: the ordering litmus was not discriminating here"});
+        }
+    }
     out::count("ordering_litmus_rounds", rounds as i128);
     out::key("atomic|ordering-litmus|store-buffering|SeqCst", true);
     out::eval(rounds);
